@@ -111,9 +111,15 @@ impl Server {
 
     /// `uri` is the raw request target below /api/v1 (already percent-encoded).
     pub(crate) async fn call(&self, method: &str, uri: &str, token: Option<&str>, body: Option<&Value>) -> Resp {
+        let auth = token.map(|t| format!("Bearer {t}"));
+        self.call_auth(method, uri, auth.as_deref(), body).await
+    }
+
+    /// `auth` is the complete value of the Authorization header.
+    pub(crate) async fn call_auth(&self, method: &str, uri: &str, auth: Option<&str>, body: Option<&Value>) -> Resp {
         let mut b = Request::builder().method(method).uri(format!("{API}{uri}"));
-        if let Some(t) = token {
-            b = b.header("authorization", format!("Bearer {t}"));
+        if let Some(a) = auth {
+            b = b.header("authorization", a);
         }
         let req = match body {
             Some(j) => b.header("content-type", "application/json").body(Body::from(serde_json::to_vec(j).unwrap())),
